@@ -1,3 +1,124 @@
-import DosModel.Model.Util
--- stub: no model driver for this property yet
-def main : IO Unit := Dos.lineLoop (fun _ => "unimplemented")
+import DosModel.Model.ReqLoop
+/-!
+Line-protocol driver for C19 (see go/props/c19/c19.go for the grammar).
+
+  hr <o1,o2,…>                                   handleReq alone (hook), outcomes acc|closed|nonce|revert|funds|other|done|op
+  seq <gasLimit> <gasPrice> <chainId> <call>…    real adaptor, each call = name/args/outcomes
+  sig <sighex>                                   Signature.ToBigInt
+  pk <marshalled G2 hex>                         decodePubKey
+-/
+namespace Dos.C19Drv
+open Dos Dos.ReqLoop
+
+def synPayload (n a b : Nat) : Bytes :=
+  (List.range n).map (fun i => UInt8.ofNat ((a * i + b) % 256))
+
+def adler32 (bs : Bytes) : Nat :=
+  let (s1, s2) := bs.foldl (fun (p : Nat × Nat) x =>
+    let s1 := (p.1 + x.toNat) % 65521
+    (s1, (p.2 + s1) % 65521)) (1, 0)
+  s2 * 65536 + s1
+
+def parseContent (s : String) : Option Bytes :=
+  match s.splitOn "." with
+  | ["syn", n, a, b] => do
+    let n ← n.toNat?
+    let a ← a.toNat?
+    let b ← b.toNat?
+    pure (synPayload n a b)
+  | _ => ofHex s
+
+/-- full-stack outcome token → (model outcome, does the raw transaction reach the endpoint) -/
+def parseFs : String → Option (Outcome × Bool)
+  | "acc" => some (.accept, true)
+  | "conn" => some (.nonceErr, false)      -- connection dropped at the first RPC (account nonce)
+  | "nonce" => some (.nonceErr, false)
+  | "revert" => some (.revert, true)
+  | "funds" => some (.insufficient, true)
+  | "other" => some (.otherErr, true)
+  | "closed" => some (.closedConn, true)
+  | "hdr" => some (.otherErr, false)       -- error at eth_getBlockByNumber
+  | "connsend" => some (.otherErr, false)  -- connection dropped at eth_sendRawTransaction
+  | _ => none
+
+def mod256 (v : Nat) : Nat := v % 2 ^ 256
+
+/-- canonical method + argument rendering of one call, as decoded from the raw transaction -/
+def renderCall (name args : String) : Option String :=
+  let a := args.splitOn ";"
+  match name, a with
+  | "ur", [sig] => do
+    let s ← ofHex sig
+    let (x, y) ← toBigInt s
+    pure s!"to=proxy m=updateRandomness args={mod256 x},{mod256 y}"
+  | "dr", [sig, rid, idx, content] => do
+    let s ← ofHex sig
+    let r ← ofHex rid
+    let i ← idx.toNat?
+    let c ← parseContent content
+    let (x, y) ← toBigInt s
+    pure s!"to=proxy m=triggerCallback args={mod256 (requestId r)},{trafficType i},{c.length}:{adler32 c},{mod256 x},{mod256 y}"
+  | "rg", [d0, d1, d2, d3, d4] => do
+    let v ← [d0, d1, d2, d3, d4].mapM String.toNat?
+    pure s!"to=proxy m=registerGroupPubKey args={String.intercalate "," (v.map (fun x => toString (mod256 x)))}"
+  | "rn", ["-"] => pure "to=proxy m=registerNewNode args=-"
+  | "cm", [cid, h] => do
+    let c ← cid.toNat?
+    let b ← ofHex h
+    if b.length ≠ 32 then none else
+    pure s!"to=cr m=commit args={mod256 c},{toHex b}"
+  | "rv", [cid, sec] => do
+    let c ← cid.toNat?
+    let s ← sec.toNat?
+    pure s!"to=cr m=reveal args={mod256 c},{mod256 s}"
+  | _, _ => none
+
+def seqStep (gl gp cid : Nat) : List Nat → List String → Option (List String)
+  | _, [] => some []
+  | dead, c :: rest =>
+    match c.splitOn "/" with
+    | [name, args, outs] => do
+      let fs ← (outs.splitOn ",").mapM parseFs
+      let os := fs.map (·.1)
+      let (r, dead') := call true dead os
+      let raw := r.contacted.filter (fun i => match fs[i]? with | some (_, b) => b | none => false)
+      let body ← renderCall name args
+      let txs := raw.map (fun i =>
+        s!"{i}:{body} nonce={7 + i} gas={gl} price={if gp = 0 then 2000000000 + i else gp} chain={cid} from=key")
+      let line := s!"err={callErrName r.err} contacted={natsCsv r.contacted} raw={natsCsv raw} tx={if txs.isEmpty then "-" else String.intercalate ";" txs}"
+      let more ← seqStep gl gp cid dead' rest
+      pure (line :: more)
+    | _ => none
+
+def step (line : String) : String :=
+  match words line with
+  | ["hr", os] =>
+    match parseOutcomes os with
+    | some os => showResult (run os)
+    | none => "bad-op"
+  | "seq" :: gl :: gp :: cid :: calls =>
+    match gl.toNat?, gp.toNat?, cid.toNat? with
+    | some gl, some gp, some cid =>
+      match seqStep gl gp cid [] calls with
+      | some ls => String.intercalate " | " ls
+      | none => "bad-op"
+    | _, _, _ => "bad-op"
+  | ["sig", s] =>
+    match ofHex s with
+    | some b =>
+      match toBigInt b with
+      | some (x, y) => s!"ok {x} {y}"
+      | none => "panic"
+    | none => "bad-op"
+  | ["pk", s] =>
+    match ofHex s with
+    | some b =>
+      match decodePubKey b with
+      | some v => "ok " ++ String.intercalate " " (v.map toString)
+      | none => "panic"
+    | none => "bad-op"
+  | _ => "bad-op"
+
+end Dos.C19Drv
+
+def main : IO Unit := Dos.lineLoop Dos.C19Drv.step
